@@ -436,6 +436,10 @@ class State:
     def _rbyte(self, key, reg, off):
         ent = reg.get(off)
         if ent is None:
+            if key.startswith("&") and self.base_arr is None:
+                init = self.m.data_byte(key[1:], off)       # statically initialised object defined in this file
+                if init is not None:
+                    return init
             arr = self.m.M0 if key == "RSP" or key.startswith("DYN") or self.base_arr is None else self.base_arr
             return z3.Select(arr, simp(self._base_addr(key) + bv(off)))
         w, i = ent
@@ -749,6 +753,7 @@ class Machine:
         self.insn_count = {}
         self.solver_checks = 0
         self._sem_cache = {}
+        self._data_img = {}
         self.volatile = set()             # region keys ("&sym") of shared cells: reads are fresh, writes are events
         self.cut_loops = False            # True: a path that exceeds the unrolling bound is cut (marked), not an error
 
@@ -779,6 +784,28 @@ class Machine:
             res = None
         self._sem_cache[key] = (res, addr)
         return res
+
+    def data_byte(self, sym, off):
+        """initial value of byte `off` of a data object defined in this translation unit (None if unknown)"""
+        if sym not in self.prog.data:
+            return None
+        img = self._data_img.get(sym)
+        if img is None:
+            img = []
+            for it in self.prog.data[sym]:
+                if it[0] == "byte":
+                    img.append(bv(it[1] & 0xff, 8))
+                elif it[0] == "zero":
+                    img.extend([bv(0, 8)] * it[1])
+                elif it[0] == "quadv":
+                    img.extend([bv((it[1] >> (8 * i)) & 0xff, 8) for i in range(8)])
+                elif it[0] == "quad":
+                    a = self.symaddr(it[1]) + bv(it[2])
+                    img.extend([simp(z3.Extract(8 * i + 7, 8 * i, a)) for i in range(8)])
+            self._data_img[sym] = img
+        if 0 <= off < len(img):
+            return img[off]
+        return None
 
     def static_frame_size(self, s):
         """N of the prologue's `sub $N, %rsp` of the function being executed"""
